@@ -8,6 +8,7 @@ import (
 	"io"
 	"log/slog"
 	"net"
+	"os"
 
 	"github.com/hydraide/hydraide/sdk/go/hydraidego/v3"
 	sdkclient "github.com/hydraide/hydraide/sdk/go/hydraidego/v3/client"
@@ -45,7 +46,13 @@ type miscSDK struct {
 	conn *grpc.ClientConn
 }
 
-func miscQuiet() { slog.SetDefault(slog.New(slog.NewTextHandler(io.Discard, nil))) }
+// miscQuiet silences slog and moves the process-wide os.Stdout to stderr: the server code has a
+// stray debug fmt.Println (chronicler.go) that would otherwise land between the reply lines.
+// The reply writer was created from the original os.Stdout before and keeps writing there.
+func miscQuiet() {
+	slog.SetDefault(slog.New(slog.NewTextHandler(io.Discard, nil)))
+	os.Stdout = os.Stderr
+}
 
 // miscNewSDK starts the in-process server and connects the SDK to it.
 func miscNewSDK(idleSec, writeSec int64) (*miscSDK, error) {
